@@ -290,3 +290,7 @@ mod tests {
         assert_eq!(result.leap_indicator, None);
     }
 }
+
+#[cfg(all(test, pendulum_project_ntpd_rs_verif))]
+#[path = "/verif/harness/ntp-proto/hook_algorithm__kalman__combiner.rs"]
+mod verif_hook;
